@@ -24,6 +24,7 @@ import (
 	"github.com/cosi-project/runtime/pkg/resource"
 	"github.com/cosi-project/runtime/pkg/resource/meta/spec"
 	"github.com/cosi-project/runtime/pkg/resource/typed"
+	"github.com/cosi-project/runtime/pkg/safe"
 	"github.com/cosi-project/runtime/pkg/state"
 	"verif.local/explore"
 	"verif.local/harness/hx"
@@ -143,6 +144,11 @@ func (c Cfg) usesInputFinalizers() bool {
 
 func (c Cfg) hasDestroyController() bool { return strings.HasSuffix(c.Flavour, "+destroy") }
 
+// hasDep: the output also carries the content of the secondary input dep-<id>.
+func (c Cfg) hasDep() bool {
+	return c.Flavour == "transform-extra" || c.Flavour == "qtransform-mapped" || c.Flavour == "qtransform-conc2"
+}
+
 func (c Cfg) tdCountsAsRunning() bool { return c.Flavour == "transform-ignoretd" }
 
 // ---------------------------------------------------------------- script operations
@@ -205,6 +211,12 @@ func doOp(ctx context.Context, st state.State, op string, act *actor) {
 		ignore(st.Create(ctx, NewC("dep-"+id)))
 	case "rmc":
 		ignore(st.Destroy(ctx, NewC("dep-"+id).Metadata()))
+	case "updc":
+		_, err := st.UpdateWithConflicts(ctx, NewC("dep-"+id).Metadata(), func(r resource.Resource) error {
+			r.(*C).TypedSpec().Out += "x"
+			return nil
+		})
+		ignore(err)
 	case "outfin": // a third party puts a finalizer on the output
 		ignore(st.AddFinalizer(ctx, bPtr("out-"+id), "third"))
 	case "outrmfin":
@@ -240,7 +252,48 @@ func register(rt *runtime.Runtime, c Cfg, invocations *int) error {
 		out.TypedSpec().Out = fmt.Sprint(in.TypedSpec().Int)
 		return nil
 	}
+	// flavours with a secondary input (kind C, "dep-<id>"): the output carries its content too
+	withDep := func(ctx context.Context, r controller.Reader, in *A, out *B) error {
+		if err := xform(in, out); err != nil {
+			return err
+		}
+		dep, err := safe.ReaderGetByID[*C](ctx, r, "dep-"+in.Metadata().ID())
+		switch {
+		case err == nil:
+			out.TypedSpec().Out += ":" + dep.TypedSpec().Out
+		case state.IsNotFoundError(err):
+			out.TypedSpec().Out += ":-"
+		default:
+			return err
+		}
+		return nil
+	}
 	switch c.Flavour {
+	case "transform-extra":
+		return rt.RegisterController(transform.NewController(transform.Settings[*A, *B]{
+			Name:            ctrlName,
+			MapMetadataFunc: func(in *A) *B { return NewB("out-" + in.Metadata().ID()) },
+			TransformFunc: func(ctx context.Context, r controller.Reader, _ *zap.Logger, in *A, out *B) error {
+				return withDep(ctx, r, in, out)
+			},
+		}, transform.WithExtraInputs(controller.Input{Namespace: hx.NS, Type: CType, Kind: controller.InputWeak})))
+	case "qtransform-mapped", "qtransform-conc2":
+		// (a plain mapper by ID: the typed helper skips inputs that no longer exist, by its contract)
+		opts := []qtransform.ControllerOption{qtransform.WithExtraMappedInput[*C](
+			func(_ context.Context, _ *zap.Logger, _ controller.QRuntime, dep controller.ReducedResourceMetadata) ([]resource.Pointer, error) {
+				return []resource.Pointer{aPtr(strings.TrimPrefix(dep.ID(), "dep-"))}, nil
+			})}
+		if c.Flavour == "qtransform-conc2" {
+			opts = append(opts, qtransform.WithConcurrency(2))
+		}
+		return rt.RegisterQController(qtransform.NewQController(qtransform.Settings[*A, *B]{
+			Name:              ctrlName,
+			MapMetadataFunc:   func(in *A) *B { return NewB("out-" + in.Metadata().ID()) },
+			UnmapMetadataFunc: func(out *B) *A { return NewA(strings.TrimPrefix(out.Metadata().ID(), "out-"), 0) },
+			TransformFunc: func(ctx context.Context, r controller.Reader, _ *zap.Logger, in *A, out *B) error {
+				return withDep(ctx, r, in, out)
+			},
+		}, opts...))
 	case "transform", "transform-fin", "transform-ignoretd":
 		var opts []transform.ControllerOption
 		if c.Flavour == "transform-fin" {
@@ -354,7 +407,7 @@ func Body(c Cfg, prop string, x *explore.X) {
 	}
 	// the quiescent state is read from the store itself (what callers see), not derived from the commit log
 	final := map[string]resource.Resource{}
-	for _, typ := range []resource.Type{AType, BType} {
+	for _, typ := range []resource.Type{AType, BType, CType} {
 		l, err := st.List(ctx, resource.NewMetadata(hx.NS, typ, "", resource.VersionUndefined))
 		if err != nil {
 			panic(err)
@@ -421,7 +474,15 @@ func checkConvergence(c Cfg, x *explore.X, final map[string]resource.Resource, a
 			}
 		}
 		if running {
-			wantOut["out-"+in.Metadata().ID()] = fmt.Sprint(in.TypedSpec().Int)
+			want := fmt.Sprint(in.TypedSpec().Int)
+			if c.hasDep() {
+				if dep, ok := final[string(CType)+"/dep-"+in.Metadata().ID()]; ok {
+					want += ":" + dep.(*C).TypedSpec().Out
+				} else {
+					want += ":-"
+				}
+			}
+			wantOut["out-"+in.Metadata().ID()] = want
 		}
 	}
 	for k, r := range final {
@@ -632,6 +693,17 @@ func Build(prop, tier string) []explore.Scenario {
 	} {
 		cfgs = append(cfgs, Cfg{Name: "cleanup-combined/" + n, Flavour: "cleanup-combined", Script: sc2, Bounds: []int{0}})
 	}
+	// secondary inputs: an extra input of a transform controller, a mapped input of a queue transform
+	// (also with two workers): the output follows both inputs
+	for _, fl := range []string{"transform-extra", "qtransform-mapped", "qtransform-conc2"} {
+		cfgs = append(cfgs,
+			Cfg{Name: fl + "/dep-after-input", Flavour: fl, Script: []string{"create a", "mkc a", "updc a"}, Bounds: b},
+			Cfg{Name: fl + "/dep-before-input-then-gone", Flavour: fl, Script: []string{"mkc a", "create a", "rmc a"}, Bounds: b},
+		)
+		if fl == "qtransform-conc2" || thorough {
+			cfgs = append(cfgs, Cfg{Name: fl + "/two-inputs", Flavour: fl, Script: []string{"create a", "create b", "mkc b", "update a", "updc b"}, Bounds: b})
+		}
+	}
 	// the generic destroy controller finishes what a plain Teardown starts (heavy: the quick tier runs one
 	// flavour, by the slow actor only - see the filter below)
 	for _, fl := range []string{"qtransform+destroy", "transform-fin+destroy"} {
@@ -684,15 +756,23 @@ func Build(prop, tier string) []explore.Scenario {
 		}
 		cfgs = append(cfgs, sc)
 	}
-	maxExecs := 40000
+	maxExecs := 24000
 	if thorough {
 		maxExecs = 4000000
 	}
 	var out []explore.Scenario
 	for _, c := range cfgs {
 		c := c
-		if !thorough && c.hasDestroyController() && !strings.Contains(c.Name, "/slow/") {
-			continue
+		if !thorough && !strings.Contains(c.Name, "/slow/") {
+			// quick tier: the fast actor (whose schedule spaces are beyond any cap) only for the flavours with
+			// input finalizers; everything else by the slow actor
+			switch c.Flavour {
+			case "transform-fin", "qtransform", "qtransform-until", "qtransform-while", "cleanup-combined":
+			default:
+				if !strings.HasSuffix(c.Name, "/create-destroy") {
+					continue
+				}
+			}
 		}
 		out = append(out, explore.Scenario{
 			Name:     c.Name,
